@@ -45,6 +45,8 @@ def main():
             s, d = os.path.join(src, f), os.path.join(dst, f)
             if os.path.isdir(s):
                 shutil.copytree(s, d, dirs_exist_ok=True)
+            elif f == "meta.json" and os.path.exists(d):
+                continue      # keep the accumulated record; the author's fields are already in it
             elif os.path.getsize(s) < 2_000_000 and not f.endswith((".o", ".out")) and os.access(s, os.R_OK) and not (os.access(s, os.X_OK) and not f.endswith((".sh", ".py"))):
                 shutil.copy(s, d)
     meta_p = os.path.join(dst, "meta.json")
